@@ -5,7 +5,8 @@
    labels c cs  = the labels (scheduling point left + events) of the steps taken.
 
    Sections:  1 ghost state is a function of the observable trace      2 deliveries (increasing / counts / restart)
-              3 gating      4 stop: bounded progress, no deadlock, release of a pending get_frame. *)
+              3 gating      4 stop: bounded progress, no deadlock, release of a pending get_frame (the stop of op X and the
+              stop the HAL performs inside a set the device rejects, op b)      5 rejected set / AwaitingConfiguration. *)
 From Coq Require Import ZArith List Bool Lia Sorted.
 From SimSync Require Import Sched SimSync SimSyncProofs.
 Import ListNotations.
@@ -223,7 +224,7 @@ Qed.
 Definition pending (s : St) : bool := match cpc s with CLock | CPre | CWait => true | _ => false end.
 (* designated threads while stop is in progress: the controller, the streamer, and the caller iff it is inside get_frame *)
 Definition Dstop (s : St) (t : Tid) : bool := match t with Cal => pending s | _ => true end.
-Definition rankK (p : KPc) : nat := match p with KStopLock => 2 | KStopJoin => 1 | _ => 0 end.
+Definition rankK (p : KPc) : nat := match p with KStopLock _ => 2 | KStopJoin _ => 1 | _ => 0 end.
 Definition rankS (p : SPc) : nat :=
   match p with SCreate => 7 | SLock1 => 6 | SPre => 5 | SWait => 4 | SSleep => 3 | SLock2 => 2 | SExit => 1 | _ => 0 end.
 Definition rankC (p : CPc) : nat := match p with CPre => 3 | CWait => 2 | CLock => 1 | _ => 0 end.
@@ -270,10 +271,10 @@ Proof.
   all: try (try_thread Ctl).
 Qed.
 
-(* a caller inside get_frame while the camera is stopping / stopped *)
+(* a caller inside get_frame while the camera is stopping / stopped (by op X or by the stop inside a rejected set) *)
 Lemma caller_released : forall s, Inv s -> running s = false ->
-  (cpc s = CPre -> kpc s = KStopLock) /\
-  (cpc s = CWait -> cnot s = false -> kpc s = KStopLock) /\
+  (cpc s = CPre -> at_stop_lock s = true) /\
+  (cpc s = CWait -> cnot s = false -> at_stop_lock s = true) /\
   (forall s' l, cpc s = CLock \/ cpc s = CWait -> step s Cal = Some (s', l) ->
      l_evs l = [EvGet 0 false (-1)] /\ deliv s' = deliv s /\ cpc s' = cnext (cscript s)).
 Proof.
@@ -304,13 +305,38 @@ Proof.
   exists n. rewrite <- reach_app. exact Hn.
 Qed.
 
-(* the step with which stop returns *)
-Lemma stop_return_step : forall s t s' l, step s t = Some (s', l) -> in_stop s = true -> in_stop s' = false ->
-  t = Ctl /\ In (EvRet KStop 0) (l_evs l) /\ hal s' = HArmed /\ live s' = false.
+(* which stop is in progress: the one of op X (false) or the one inside a rejected set, op b (true) *)
+Definition stop_rej (s : St) : bool := match kpc s with KStopLock r | KStopJoin r => r | _ => false end.
+
+(* the step with which a stop begins: the controller's, on a camera the HAL reports Running; is_running is cleared in
+   that very block; it is either camera_stop (op X) or the camera_stop inside camera_set's error branch (op b) *)
+Lemma stop_enter_step : forall s t s' l, step s t = Some (s', l) -> in_stop s = false -> in_stop s' = true ->
+  t = Ctl /\ hal s = HRunning /\ hal s' = HRunning /\ running s' = false /\ at_stop_lock s' = true /\
+  ((l_evs l = [EvBegin KStop] /\ stop_rej s' = false) \/ (l_evs l = [EvBegin KRej] /\ stop_rej s' = true)).
 Proof.
-  intros s t s' l Hs H1 H2. destr s. unfold in_stop in *. simpl in *.
+  intros s t s' l Hs H1 H2. destr s. unfold in_stop, at_stop_lock, stop_rej in *. simpl in *.
   cases Hs t; simpl in *; try discriminate; try congruence.
   all: try (repeat split; auto; fail).
+Qed.
+
+(* the step with which a stop returns: the controller's; the thread has been joined; op X returns Device_Ok and leaves
+   the HAL state Armed, the rejected set returns the device's Device_Err and leaves AwaitingConfiguration *)
+Lemma stop_return_step : forall s t s' l, step s t = Some (s', l) -> in_stop s = true -> in_stop s' = false ->
+  t = Ctl /\ live s' = false /\ running s' = running s /\
+  ((stop_rej s = false /\ l_evs l = [EvRet KStop 0] /\ hal s' = HArmed) \/
+   (stop_rej s = true /\ l_evs l = [EvRet KRej 1] /\ hal s' = HAwait)).
+Proof.
+  intros s t s' l Hs H1 H2. destr s. unfold in_stop, stop_rej in *. simpl in *.
+  cases Hs t; simpl in *; try discriminate; try congruence.
+  all: try (repeat split; auto; fail).
+Qed.
+
+(* the stop is the same in both cases: which one is in progress changes nothing before the returning step *)
+Lemma stop_rej_stable : forall s t s' l, step s t = Some (s', l) -> in_stop s = true -> in_stop s' = true ->
+  stop_rej s' = stop_rej s.
+Proof.
+  intros s t s' l Hs H1 H2. destr s. unfold in_stop, stop_rej in *. simpl in *.
+  cases Hs t; simpl in *; try discriminate; try congruence; reflexivity.
 Qed.
 
 Lemma stop_unblocks_reach : forall c cs, c_fix9 c = true ->
@@ -333,8 +359,8 @@ Qed.
 Lemma caller_released_reach : forall c cs, c_fix9 c = true ->
   let s := reach c cs in
   running s = false ->
-  (cpc s = CPre -> kpc s = KStopLock) /\
-  (cpc s = CWait -> cnot s = false -> kpc s = KStopLock) /\
+  (cpc s = CPre -> at_stop_lock s = true) /\
+  (cpc s = CWait -> cnot s = false -> at_stop_lock s = true) /\
   (forall s' l, cpc s = CLock \/ cpc s = CWait -> step s Cal = Some (s', l) ->
      l_evs l = [EvGet 0 false (-1)] /\ deliv s' = deliv s /\ cpc s' = cnext (cscript s)).
 Proof. intros c cs Hc s Hr. apply caller_released; auto. apply reach_inv; auto. Qed.
@@ -356,3 +382,106 @@ Lemma publish_reach : forall c cs s' l, c_fix9 c = true ->
   spc s = SLock2 -> step s Str = Some (s', l) ->
   fid s' = gen s - 1 /\ fbuf s' = gen s - 1 /\ gen s' = gen s /\ wanted s' = false.
 Proof. intros c cs s' l Hc. exact (publish_step (reach c cs) s' l (reach_inv c cs Hc)). Qed.
+
+(* ------------------------------------------------------------------ 5. a set the device rejects; AwaitingConfiguration *)
+(* everything that is true of the step with which a rejected set returns: Device_Err, the HAL state is
+   AwaitingConfiguration, the camera is not running; nothing of the configuration or of the run's counters changed; on a
+   Running camera it is the last step of a complete stop (thread joined), otherwise the op is a single block that touches
+   nothing but the HAL state *)
+
+Lemma rejected_set_step : forall s t s' l rc, Inv s -> step s t = Some (s', l) -> In (EvRet KRej rc) (l_evs l) ->
+  t = Ctl /\ rc = 1 /\ hal s' = HAwait /\ running s' = false /\ in_stop s' = false /\
+  enable s' = enable s /\ gated s' = gated s /\ deliv s' = deliv s /\ ext s' = ext s /\ gen s' = gen s /\
+  runs s' = runs s /\ spc s' = spc s /\
+  ((hal s = HRunning /\ in_stop s = true /\ stop_rej s = true /\ live s' = false) \/
+   (hal s <> HRunning /\ in_stop s = false /\ l_evs l = [EvBegin KRej; EvRet KRej 1] /\ live s' = live s /\
+    triggered s' = triggered s /\ wanted s' = wanted s /\ fid s' = fid s /\ last s' = last s)).
+Proof.
+  intros s t s' l rc [HL _ _ _] Hs Hin. destr s. destruct HL. unfold in_stop, stop_rej in *. simpl in *.
+  cases Hs t; simpl in Hin.
+  all: try (exfalso; intuition discriminate).
+  all: repeat match goal with H : _ \/ _ |- _ => destruct H end; try contradiction; try discriminate.
+  all: match goal with H : EvRet _ _ = EvRet _ _ |- _ => inversion H; subst; clear H end.
+  all: simpl.
+  all: try (destruct i_stop as [Hh Hr]; [reflexivity|]; subst).
+  all: repeat split; auto; try reflexivity.
+  all: try (destruct r_; [destruct i_run1 as [Hx _]; [reflexivity|discriminate]|reflexivity]).
+  all: try (right; repeat split; auto; discriminate).
+  all: try (left; repeat split; auto; fail).
+Qed.
+
+Lemma start_refused_step : forall s t s' l, step s t = Some (s', l) -> In EvSkip (l_evs l) ->
+  t = Ctl /\ hal s <> HArmed /\ l_evs l = [EvBegin KStart; EvSkip] /\
+  hal s' = hal s /\ running s' = running s /\ runs s' = runs s /\ spc s' = spc s /\ live s' = live s /\
+  gen s' = gen s /\ ext s' = ext s /\ deliv s' = deliv s /\ gated s' = gated s /\
+  fid s' = fid s /\ last s' = last s /\ triggered s' = triggered s /\ enable s' = enable s.
+Proof.
+  intros s t s' l Hs Hin. destr s. simpl in *.
+  cases Hs t; simpl in Hin.
+  all: try (exfalso; intuition discriminate).
+  all: repeat split; auto; discriminate.
+Qed.
+
+Lemma await_refuses_start : forall s r s' l, hal s = HAwait -> kpc s = KIdle -> kscript s = KStart :: r ->
+  step s Ctl = Some (s', l) ->
+  l_evs l = [EvBegin KStart; EvSkip] /\ hal s' = HAwait /\ runs s' = runs s /\ running s' = running s /\ spc s' = spc s /\
+  kscript s' = r.
+Proof.
+  intros s r s' l Hh Hk Hscr Hs. destr s. simpl in *. subst. simpl in Hs. unfold kstep in Hs. simpl in Hs.
+  inversion Hs; subst; clear Hs. destruct r; simpl; repeat split.
+Qed.
+
+(* AwaitingConfiguration is left only by a set the device accepts *)
+Lemma await_step : forall s t s' l, Inv s -> step s t = Some (s', l) -> hal s = HAwait ->
+  hal s' = HAwait \/ (exists e, l_evs l = [EvRet (KSet e) 0] /\ hal s' = HArmed /\ enable s' = e).
+Proof.
+  intros s t s' l [HL _ _ _] Hs Hh. destr s. destruct HL. unfold in_stop in *. simpl in *. subst.
+  cases Hs t; simpl.
+  all: try (left; reflexivity).
+  all: try (right; eexists; repeat split; fail).
+  all: try (destruct i_stop as [Hx _]; [reflexivity|discriminate]).
+Qed.
+
+Lemma await_quiescent : forall s, Inv s -> hal s = HAwait ->
+  running s = false /\ in_stop s = false /\ (spc s = SNone \/ spc s = SDone).
+Proof.
+  intros s [HL _ _ _] Hh.
+  assert (Hr : running s = false).
+  { destruct (running s) eqn:E; [|reflexivity]. destruct (i_run1 _ HL E) as [Hx _]. congruence. }
+  assert (Hi : in_stop s = false).
+  { destruct (in_stop s) eqn:E; [|reflexivity]. destruct (i_stop _ HL E) as [Hx _]. congruence. }
+  repeat split; auto. apply (i_sdone _ HL Hr Hi).
+Qed.
+
+Lemma rejected_set_reach : forall c cs t s' l rc, c_fix9 c = true ->
+  let s := reach c cs in
+  step s t = Some (s', l) -> In (EvRet KRej rc) (l_evs l) ->
+  t = Ctl /\ rc = 1 /\ hal s' = HAwait /\ running s' = false /\ in_stop s' = false /\
+  enable s' = enable s /\ gated s' = gated s /\ deliv s' = deliv s /\ ext s' = ext s /\ gen s' = gen s /\
+  runs s' = runs s /\ spc s' = spc s /\
+  ((hal s = HRunning /\ in_stop s = true /\ stop_rej s = true /\ live s' = false) \/
+   (hal s <> HRunning /\ in_stop s = false /\ l_evs l = [EvBegin KRej; EvRet KRej 1] /\ live s' = live s /\
+    triggered s' = triggered s /\ wanted s' = wanted s /\ fid s' = fid s /\ last s' = last s)).
+Proof. intros c cs t s' l rc Hc s. apply rejected_set_step. apply reach_inv; auto. Qed.
+
+Lemma await_reach : forall c cs, c_fix9 c = true ->
+  let s := reach c cs in
+  hal s = HAwait ->
+  running s = false /\ in_stop s = false /\ (spc s = SNone \/ spc s = SDone) /\
+  (forall t s' l, step s t = Some (s', l) ->
+     hal s' = HAwait \/ (exists e, l_evs l = [EvRet (KSet e) 0] /\ hal s' = HArmed /\ enable s' = e)) /\
+  (forall r s' l, kpc s = KIdle -> kscript s = KStart :: r -> step s Ctl = Some (s', l) ->
+     l_evs l = [EvBegin KStart; EvSkip] /\ hal s' = HAwait /\ runs s' = runs s /\ running s' = running s /\
+     spc s' = spc s /\ kscript s' = r).
+Proof.
+  intros c cs Hc s Hh. pose proof (reach_inv c cs Hc) as HI. fold s in HI.
+  destruct (await_quiescent s HI Hh) as (A & B & C).
+  repeat split; auto.
+  - intros t s' l Hs. eapply await_step; eauto.
+  - eapply await_refuses_start; eauto.
+  - eapply await_refuses_start; eauto.
+  - eapply await_refuses_start; eauto.
+  - eapply await_refuses_start; eauto.
+  - eapply await_refuses_start; eauto.
+  - eapply await_refuses_start; eauto.
+Qed.
